@@ -131,6 +131,11 @@ Definition notify (c : cfg) (ev : pv) (ns : str) (args : list pv) : option (list
       end
   end.
 
+Definition opt_app {A} (a b : option (list A)) : option (list A) :=
+  match a, b with Some x, Some y => Some (x ++ y) | _, _ => None end.
+Definition fold_opt {A} (f : A -> option (list (N * list pv))) (l : list A) : option (list (N * list pv)) :=
+  fold_right (fun a acc => opt_app (f a) acc) (Some []) l.
+
 (* handler ids registered for an event name, in function handlers and class-based namespaces *)
 Definition hids_for (c : cfg) (ev : str) : list N :=
   flat_map (fun nt => match aget str_eqb (snd nt) ev with Some h => [h] | None => [] end)
